@@ -342,6 +342,11 @@ class GuppyObject(DunderMixin):
         if not ty.droppable and not self._used:
             state.unused_undroppable_objs[self._id] = self
 
+    def __deepcopy__(self, memo: dict[int, Any]) -> "GuppyObject":
+        # Guppy objects stand for a unique wire and must keep their identity when an AST
+        # that refers to them (via `ComptimeVariable.static_value`) is copied
+        return self
+
     @hide_trace
     def __getattr__(self, key: str) -> Any:  # type: ignore[misc]
         # Guppy objects don't have fields (structs are treated separately below), so the
@@ -448,6 +453,10 @@ class GuppyStructObject(DunderMixin):
         object.__setattr__(self, "_ty", ty)
         object.__setattr__(self, "_field_values", field_values_dict)
         object.__setattr__(self, "_frozen", frozen)
+
+    def __deepcopy__(self, memo: dict[int, Any]) -> "GuppyStructObject":
+        # See `GuppyObject.__deepcopy__`
+        return self
 
     @hide_trace
     def __getattr__(self, key: str) -> Any:  # type: ignore[misc]
